@@ -328,6 +328,16 @@ func TestC08Direct(t *testing.T) {
 		if s.strip != "" {
 			opts["strip"] = s.strip
 		}
+		if rapid.IntRange(0, 2).Draw(t, "route-with-access-rule") == 0 {
+			// the route carries an access rule that has nothing against this peer (nor against any
+			// address a client could claim here): the request passes the gate on its way
+			if rapid.Bool().Draw(t, "rule-kind") {
+				opts["deny"] = "ip:198.51.100.0/24,ip:2001:db8:dead::/48"
+			} else {
+				opts["allow"] = "ip:0.0.0.0/0,ip:::/0"
+			}
+			hx.Class("route-with-an-access-rule-that-admits-the-peer")
+		}
 		defs := []route.RouteDef{{Cmd: route.RouteAddCmd, Service: "svc", Src: "/", Dst: "http://upstream.internal:8000/", Opts: opts}}
 		tbl, err := route.NewTableCustom(&defs)
 		if err != nil {
@@ -433,6 +443,10 @@ func newWSUpstream() *wsUpstream {
 				if strings.EqualFold(r.Header.Get("Upgrade"), "websocket") {
 					c.Write([]byte("HTTP/1.1 101 Switching Protocols\r\nUpgrade: websocket\r\nConnection: Upgrade\r\n\r\n"))
 					c.Write([]byte("hi"))
+				} else if up := r.Header.Get("Upgrade"); up != "" {
+					// another protocol the upstream agrees to switch to
+					c.Write([]byte("HTTP/1.1 101 Switching Protocols\r\nUpgrade: " + up + "\r\nConnection: Upgrade\r\n\r\n"))
+					c.Write([]byte("hi"))
 				} else {
 					if atomic.LoadInt32(&u.early) != 0 {
 						// informational response before the final one
@@ -469,7 +483,8 @@ func TestC08Loopback(t *testing.T) {
 	hx.Check(t, hx.Scale(1000, 5000), func(t *rapid.T) {
 		s := genScenario(t)
 		s.peerIP = "127.0.0.1"
-		s.upgrade = rapid.SampledFrom([]string{"", "", "websocket", "Websocket", "WebSocket", "WEBSOCKET", "webSocket"}).Draw(t, "upgrade")
+		s.upgrade = rapid.SampledFrom([]string{"", "", "websocket", "Websocket", "WebSocket", "WEBSOCKET", "webSocket", "spdy/3.1", "myproto/2"}).Draw(t, "upgrade")
+		isWS := strings.EqualFold(s.upgrade, "websocket")
 		opts := map[string]string{}
 		if s.hostOpt != "" {
 			opts["host"] = s.hostOpt
@@ -547,13 +562,17 @@ func TestC08Loopback(t *testing.T) {
 			t.Fatalf("upstream saw nothing\n%s", s)
 		}
 		var respHdr http.Header
-		if s.upgrade == "" {
+		if s.upgrade == "" || !isWS {
+			// (also the 101 that answers an upgrade to a protocol other than websocket is a response
+			// fabio writes itself)
 			respHdr = resp.Header
 		}
-		verify(func(f string, a ...any) { t.Fatalf(f, a...) }, s, last.Header, last.Host, respHdr, s.upgrade != "")
+		verify(func(f string, a ...any) { t.Fatalf(f, a...) }, s, last.Header, last.Host, respHdr, isWS)
 		kind := "http"
-		if s.upgrade != "" {
+		if isWS {
 			kind = "websocket(" + s.upgrade + ")"
+		} else if s.upgrade != "" {
+			kind = "upgrade-to-another-protocol"
 		}
 		if s.tlsOn {
 			kind += "+tls"
